@@ -592,4 +592,13 @@ class SchemaGen:
             while isinstance(s, dict) and s.get("$ref") == "#/definitions/" + nm:
                 s = self.top_schema()  # a definition that is only a reference to itself is meaningless
             defs[nm] = s
+        if self.avoid:
+            # definitions that are only references to one another (A -> B -> A) are the recorded finding KF-C01-3
+            for nm in names:
+                seen, cur = [], nm
+                while isinstance(defs.get(cur), dict) and set(defs[cur]) <= {"$ref", "description"} and "$ref" in defs[cur] and cur not in seen:
+                    seen.append(cur)
+                    cur = defs[cur]["$ref"].rsplit("/", 1)[-1]
+                if cur in seen:
+                    defs[nm] = {"type": "object", "properties": {"broken_alias_cycle": {"type": "boolean"}}}
         return {"definitions": defs}
